@@ -147,7 +147,24 @@ def run(ctx):
                 import contextlib, io
                 with warnings.catch_warnings(), contextlib.redirect_stdout(io.StringIO()):
                     warnings.simplefilter("ignore")
-                    system.assemble(options=SolverOptions(compute_consistent_initial_conditions=False))
+                    opts = SolverOptions(compute_consistent_initial_conditions=False)
+                    if c["history"] == "late_add":
+                        # assemble without the law, move the system (rotate about the joint axis / move the body), then add the law
+                        from cardillo.math import Exp_SO3, Spurrier
+                        system.remove(law)
+                        system.assemble(options=opts)
+                        body = system.contributions_map["body"]
+                        qn = system.q0.copy()
+                        if c["sub"] == "Revolute":
+                            A0 = np.asarray(pose[1], dtype=float)
+                            e = np.zeros(3); e[pose[2]] = 1.0
+                            # the joint point is the body's centre (default r_OJ0): a pure rotation about the joint axis keeps g = 0
+                            qn[body.qDOF[3:]] = Spurrier(A0 @ Exp_SO3(0.4 * e))
+                        else:
+                            qn[body.qDOF[:3]] += np.array([0.5, -0.25, 1.0])
+                        system.set_new_initial_state(qn, system.u0.copy(), t0=0.3, options=opts)
+                        system.add(law)
+                    system.assemble(options=opts)
             except Exception as ex:
                 outcome = f"{type(ex).__name__}: {ex}"
             exp = "assembled" if st["err"] == "none" else "error"
